@@ -174,6 +174,7 @@ func (ka *ecdheKeyAgreement) generateServerKeyExchange(config *Config, cert *Cer
 			break
 		}
 	}
+	curveID = verifGroup12(config, curveID)
 
 	if curveID == 0 {
 		return nil, errors.New("tls: no supported elliptic curves offered")
